@@ -4,6 +4,7 @@ import (
 	"errors"
 	"fmt"
 	"sort"
+	"strings"
 
 	"pgregory.net/rapid"
 
@@ -40,6 +41,13 @@ type Profile struct {
 	ShutdownCfg        bool // some processes carry a shutdown.command or a shutdown.timeout_seconds
 	ReplicatedLeaves   bool // processes nobody depends on may have 2-3 replicas
 	DaemonPct          int  // percent of the processes that are daemons with a shutdown.command (which may fail)
+	// RestartPendingOK admits restart requests on an instance that is still waiting for its
+	// dependencies. The recorded finding C09-restart-while-pending is about the *reported status*
+	// of the two instances; a judge that only reads the event log (C08) need not avoid the class.
+	RestartPendingOK bool
+	// PendingChurn: a request on a process that waits for its dependencies is followed, with some
+	// probability, by the end of what it waits for and by further requests on the same process.
+	PendingChurn bool
 }
 
 // OnExclude is told when the generator avoids the class of a known finding by construction.
@@ -266,6 +274,11 @@ func uniqCodes(c []int) []int {
 
 // APIStep draws one API operation.
 func APIStep(t *rapid.T, e *sc.Exec, pr Profile) (sc.Step, bool) {
+	return apiStepOn(t, e, pr, "")
+}
+
+// apiStepOn: as APIStep, on the given process when one is named (same exclusions).
+func apiStepOn(t *rapid.T, e *sc.Exec, pr Profile, forced string) (sc.Step, bool) {
 	if len(pr.APIOps) == 0 {
 		return sc.Step{}, false
 	}
@@ -276,6 +289,12 @@ func APIStep(t *rapid.T, e *sc.Exec, pr Profile) (sc.Step, bool) {
 	}
 	if pr.UnknownNames {
 		nm = append(nm, "ghost")
+	}
+	if forced != "" {
+		nm = []string{forced}
+		if op == sc.OpShutdown || op == sc.OpStopMany {
+			op = sc.OpStart
+		}
 	}
 	switch op {
 	case sc.OpShutdown:
@@ -315,7 +334,7 @@ func APIStep(t *rapid.T, e *sc.Exec, pr Profile) (sc.Step, bool) {
 			}
 			return sc.Step{}, false
 		}
-		if op == sc.OpRestart && pendingInstance(e, proc) {
+		if op == sc.OpRestart && pendingInstance(e, proc) && !pr.RestartPendingOK {
 			// known finding C09-restart-while-pending: the stopped and the new instance share one status
 			if OnExclude != nil {
 				OnExclude("C09-restart-while-pending")
@@ -365,6 +384,7 @@ func RunSteps(t *rapid.T, s *sc.Scenario, pr Profile) *sc.History {
 		shutdownAt = irange(t, 0, n, "shutdownAt")
 	}
 	holdFired := false
+	focus := ""
 	for i := 0; i <= n; i++ {
 		// the window is open: a goroutine is parked at the yield point
 		if hold != nil && !holdFired && e.W.HoldEngaged(hold.Point, hold.Proc) && len(pr.HoldOps) > 0 && pct(t, 75, "fire-in-hold?") {
@@ -388,6 +408,45 @@ func RunSteps(t *rapid.T, s *sc.Scenario, pr Profile) *sc.History {
 		}
 		var st sc.Step
 		ok := false
+		if pr.PendingChurn && len(pr.APIOps) > 0 {
+			if focus == "" {
+				var cands []string
+				for _, sp := range s.Procs {
+					if pendingInstance(e, sp.Name) {
+						cands = append(cands, sp.Name)
+					}
+				}
+				if len(cands) > 0 && pct(t, 30, "pending-churn?") {
+					focus = pick(t, cands, "focus")
+					if st, ok = apiStepOn(t, e, pr, focus); ok {
+						do(st)
+						continue
+					}
+				}
+			} else if pct(t, 60, "follow-focus?") {
+				if pendingInstance(e, focus) {
+					// let something the focus waits for end
+					var ends []sc.Step
+					if sp := s.Spec(focus); sp != nil {
+						for _, o := range Options(e, pr, codes) {
+							for _, d := range sp.Deps {
+								if o.Op == sc.OpExit && (o.Proc == d.On || strings.HasPrefix(o.Proc, d.On+"-")) {
+									ends = append(ends, o)
+								}
+							}
+						}
+					}
+					if len(ends) > 0 {
+						do(ends[irange(t, 0, len(ends)-1, "dep-end")])
+						continue
+					}
+				} else if st, ok = apiStepOn(t, e, pr, focus); ok {
+					do(st)
+					continue
+				}
+			}
+			ok = false
+		}
 		if len(pr.APIOps) > 0 && pct(t, 35, "api?") {
 			st, ok = APIStep(t, e, pr)
 		}
